@@ -38,6 +38,19 @@ class V:
     def is_num(self):
         return self.k in "ifc"
 
+    big = False
+
+
+class BigV(V):
+    """An integer *literal* (possibly with a sign) outside the signed 64-bit
+    range.  The implementation keeps such a literal as a Python int as long as
+    nothing computes with it, so it can be delivered exactly as an argument, a
+    list element, an option or an int-loop value; everything else (arithmetic,
+    functions, declarations, modes, indices) is out of the reference's domain."""
+
+    __slots__ = ()
+    big = True
+
 
 def chk(v):
     if v.k == "i":
@@ -65,6 +78,8 @@ def need_num(*vs):
     for v in vs:
         if not isinstance(v, V) or v.k not in "ifc":
             raise OOD("arithmetic on non-number")
+        if v.big:
+            raise OOD("int64 range")
 
 
 def kind2(a, b):
@@ -262,6 +277,13 @@ def func(name, a):
         x = float(a.v)
     except OverflowError:
         raise OOD("overflow")
+    # exactly known arguments at the closed ends of a real domain: the value is
+    # exact too (NumPy returns these correctly rounded values; seen for all of them)
+    if a.e == 0 and _bigint_err(a) == 0:
+        end = {("arcsin", 1.0): math.pi / 2, ("arcsin", -1.0): -math.pi / 2, ("arccos", 1.0): 0.0, ("arccos", -1.0): math.pi,
+               ("arccosh", 1.0): 0.0, ("sqrt", 0.0): 0.0, ("log", 1.0): 0.0}.get((name, x))
+        if end is not None and not (name == "sqrt" and math.copysign(1.0, x) < 0):
+            return V("f", end, 4 * EPS * abs(end))
     if name in ("arcsin", "arccos", "arctanh") and not (abs(x) <= 1 - MARGIN):
         raise OOD("function domain")
     if name == "arccosh" and not x >= 1 + MARGIN:
